@@ -50,6 +50,8 @@ type outcome struct {
 	Runtime   bool     `json:"runtime_error"`
 	Results   []obsVal `json:"results"`
 	Metered   string   `json:"metered"`
+	RandDraws int      `json:"rand_draws"`
+	RandLast  string   `json:"rand_last"`
 }
 
 const replayHelpers = `
@@ -143,9 +145,37 @@ func verifDescribe(x any) verifObs {
 
 var verifMeteredTotal uint64
 
+// a random source that replays a fixed byte stream (then zeros) and records what it handed out (C47 replays)
+var verifRandStream []byte
+var verifRandPos, verifRandDraws int
+var verifRandLast []byte
+
+type verifRandomGen struct{}
+type verifTooManyDraws struct{}
+
+func (verifRandomGen) ReadRandom(b []byte) error {
+	verifRandDraws++
+	if verifRandDraws > 100000 {
+		panic(verifTooManyDraws{})
+	}
+	for i := range b {
+		if verifRandPos < len(verifRandStream) {
+			b[i] = verifRandStream[verifRandPos]
+			verifRandPos++
+		} else {
+			b[i] = 0
+		}
+	}
+	verifRandLast = append([]byte{}, b...)
+	return nil
+}
+
 func VerifReplayRun(f func() []any) string {
 	verifMeteredTotal = 0
+	verifRandPos, verifRandDraws, verifRandLast = 0, 0, nil
 	type outc struct {
+		RandDraws int        ` + "`json:\"rand_draws\"`" + `
+		RandLast  string     ` + "`json:\"rand_last\"`" + `
 		Metered   string     ` + "`json:\"metered\"`" + `
 		Panicked  bool       ` + "`json:\"panicked\"`" + `
 		PanicType string     ` + "`json:\"panic_type\"`" + `
@@ -171,6 +201,8 @@ func VerifReplayRun(f func() []any) string {
 		}
 	}()
 	o.Metered = verifFmt.Sprint(verifMeteredTotal)
+	o.RandDraws = verifRandDraws
+	o.RandLast = verifhex.EncodeToString(verifRandLast)
 	b, _ := verifjson.Marshal(o)
 	return string(b)
 }
@@ -209,6 +241,7 @@ type modelEnv struct {
 	declBase  int
 	cells     map[*Cell]Val // entry contents of modelled objects (pointer parameters)
 	nilSubst []string // objects passed as nil because they cannot be built
+	randomUsed bool   // a replaying random source was passed (its stream is the candidate's "__stream")
 }
 
 func (me *modelEnv) intOf(t *Term) (*big.Int, bool) {
@@ -289,7 +322,9 @@ func (me *modelEnv) goExpr(name string, v Val, t types.Type) (string, bool) {
 			if !ok {
 				switch st.Field(i).Type().Underlying().(type) {
 				case *types.Pointer, *types.Interface, *types.Slice, *types.Map, *types.Signature:
-					// a part of the object the contract does not talk about
+					// a part of the object the harness cannot build: left at its zero value (nil). A nil dereference
+					// of the real code on such an input is the harness's doing, not a finding.
+					me.nilSubst = append(me.nilSubst, name+"."+st.Field(i).Name())
 					continue
 				}
 				return "", false
@@ -358,6 +393,12 @@ func (me *modelEnv) goExpr(name string, v Val, t types.Type) (string, bool) {
 			return "nil", true
 		}
 		k, ok := me.intOf(x.Kind)
+		if t != nil && hasMethod(t, "ReadRandom") && (!ok || k.Sign() != 0) {
+			// the host's random source: a generator that replays the candidate's byte stream and records its draws
+			me.randomUsed = true
+			me.desc = append(me.desc, name+"=<random source replaying 0x"+me.m["__stream"]+", then zeros>")
+			return "verifRandomGen{}", true
+		}
 		if me.wantGauge && t != nil && hasMethod(t, "MeterMemory") && (!ok || k.Sign() != 0) {
 			// a recording gauge: an embedded nil interface of the static type with the metering methods overridden
 			n := me.declBase + len(me.decls) + 1
@@ -376,6 +417,10 @@ func (me *modelEnv) goExpr(name string, v Val, t types.Type) (string, bool) {
 		}
 		if !ok || k.Sign() == 0 {
 			// nil interface (or unconstrained): contexts and gauges are passed as nil
+			if !ok && !(t != nil && hasMethod(t, "MeterMemory")) {
+				// not nil in the model, merely not constructible: a nil dereference is then the harness's doing
+				me.nilSubst = append(me.nilSubst, name)
+			}
 			return "nil", true
 		}
 		if t != nil && hasMethod(t, "MeterMemory") {
@@ -816,6 +861,37 @@ func (p *Program) judge(fr *FuncResult, model map[string]string, oc *outcome, wo
 		st := ex.Entry.snapshot()
 		if m, ok := new(big.Int).SetString(oc.Metered, 10); ok {
 			st.Ghost["metered"] = IntBig(m)
+		}
+		if oc.RandDraws > 0 {
+			// what the replaying random source handed out: number of draws, length and big-endian value of the last one
+			// (ghost state draw/drawlen/draws of the C47 contracts; entry values are 0)
+			last := make([]byte, 0, len(oc.RandLast)/2)
+			for i := 0; i+1 < len(oc.RandLast); i += 2 {
+				var b int
+				fmt.Sscanf(oc.RandLast[i:i+2], "%02x", &b)
+				last = append(last, byte(b))
+			}
+			if _, have := st.Ghost["draws"]; have {
+				st.Ghost["draws"] = IntC(int64(oc.RandDraws))
+			}
+			if g, have := st.Ghost["drawlen"]; have {
+				if g.S.K == SBV {
+					st.Ghost["drawlen"] = BVC(big.NewInt(int64(len(last))), g.S.W)
+				} else {
+					st.Ghost["drawlen"] = IntC(int64(len(last)))
+				}
+			}
+			if g, have := st.Ghost["draw"]; have {
+				if g.S.K == SBV {
+					tail := last
+					if len(tail) > 8 {
+						tail = tail[len(tail)-8:]
+					}
+					st.Ghost["draw"] = BVC(new(big.Int).SetBytes(tail), g.S.W)
+				} else {
+					st.Ghost["draw"] = IntBig(new(big.Int).SetBytes(last))
+				}
+			}
 		}
 		var binds []*Term
 		vars := map[string]Val{}
